@@ -124,6 +124,15 @@ func reasonOfRaw(a Atom, be *BigEval) (kind, text string) {
 			case "<=":
 				rel, b = "<", b.add(affConst(1))
 			}
+			// a length is not negative: len(x) < 1 is len(x) == 0, len(x) >= 1 is len(x) != 0
+			if strings.HasPrefix(subj, "len(") && b.isConst() && b.C == 1 {
+				switch rel {
+				case "<":
+					rel, b = "==", affConst(0)
+				case ">=":
+					rel, b = "!=", affConst(0)
+				}
+			}
 			return "guard", fmt.Sprintf("%s|%s|%s|%s", subj, g.Kind, rel, b.String())
 		}
 		// a size test on an integer object in canonical strictness (x > b is x >= b+1, x <= b is x < b+1), so that
